@@ -1,13 +1,14 @@
-(* NEEDS: Mem/PropList.vo Mem/ParamSlots.vo Mem/AddArrays.vo *)
+(* NEEDS: Mem/PropList.vo Mem/ParamSlots.vo Mem/AddArrays.vo Mem/DataAlloc.vo *)
 (* Extraction of the executable memory models (C03 / C12).  Only ExtrOcamlBasic's directives. *)
 Require Extraction.
 Require Import ExtrOcamlBasic.
 Require Import List ZArith.
-Require Import LV.Mem.Alloc LV.Mem.PropList LV.Mem.ParamSlots LV.Mem.AddArrays.
+Require Import LV.Mem.Alloc LV.Mem.PropList LV.Mem.ParamSlots LV.Mem.AddArrays LV.Mem.DataAlloc.
 Extraction Language OCaml.
 Set Extraction KeepSingleton.
 Extraction "models_mem.ml"
   start live fail_at fresh mkA
   lnew lstep lfree items
   pempty pstep teardown slots
-  add_arrays mkAdd.
+  add_arrays mkAdd
+  dnew resize dfree.
